@@ -40,7 +40,7 @@ InvNow == [AckedSurvive |-> AckedSurvive, AckedDurable |-> AckedDurable,
            FencedTerm |-> FencedTerm, OneLeaderPerTerm |-> OneLeaderPerTerm,
            NoTermAboveCoordinator |-> NoTermAboveCoordinator, DbIsLogPrefix |-> DbIsLogPrefix,
            DurableNotAheadOfLog |-> DurableNotAheadOfLog, CommitLeHead |-> CommitLeHead,
-           QuiescentCommitted |-> QuiescentCommitted]
+           QuiescentCommitted |-> QuiescentCommitted, LogContiguous |-> LogContiguous]
 Proj == [nodes |-> [n \in Nodes |-> PNode(n)], streams |-> PStreams,
          acked |-> {[off |-> w.off, t |-> w.t] : w \in acked'}, kf |-> kf', inv |-> InvNow']
 
